@@ -205,6 +205,9 @@ def run(ctx) -> None:
     from .c18 import check_nested_map_inputs
 
     check_nested_map_inputs(ctx, "C10.R5")
+    from .c06 import check_map_lists_follow_renames
+
+    check_map_lists_follow_renames(ctx, "C10.R5")
     from .c18 import check_no_broadcast_defaults
 
     check_no_broadcast_defaults(ctx, "C10.R5")
